@@ -69,7 +69,7 @@ def run(ctx):
             for _ in range(20000):
                 sc = ctx.rng.choice(scores)
                 cases.append((len(cases), sc, [ctx.rng.choice(ops) for _ in range(ctx.rng.randint(3, 5))]))
-    if ctx.thorough and not ctx.replay:
+    if ctx.fixtures and not ctx.replay:
         from harness import fixtures
         for sc in fixtures.slices("quantised"):
             for o in ops:
